@@ -1,9 +1,9 @@
 #!/usr/bin/env python3
-"""Round-5 prompt: like seedprompt2 but with a regex-sanitised avoid list (nothing about which check caught what)."""
+"""Round-6 prompt: like seedprompt2 but with a regex-sanitised avoid list (nothing about which check caught what)."""
 import json, sys, glob, re, subprocess
 pid = sys.argv[1]
-wt = f"/tmp/wt5-{pid}"
-out = f"/tmp/seed-out5/{pid}"
+wt = f"/tmp/wt6-{pid}"
+out = f"/tmp/seed-out6/{pid}"
 avoid = []
 cut = re.compile(r"\s*[;:.,(—-]\s*(missed|detected|NOT detected|not detected|patch rebased|only visible|deterministic|Not reached|a sequential content-integrity|needs a schedule|the root cause|this first|first broke|first stalled|needs an injected|which C[0-9][0-9]|reported by|C[0-9][0-9] )", re.S)
 for d in sorted(glob.glob(f"/verif/seeded/{pid}-m*")):
